@@ -31,6 +31,16 @@ def build_region(rnd, D):
     return r
 
 
+def special_region(D, seed):
+    """regions around places where sexagesimal formatting is delicate: just south of the equator, RA ~ 0h"""
+    r = Region(maxdepth=D)
+    if seed == -1:
+        r.add_circles(np.radians(10.0), np.radians(-0.3), np.radians(0.5))
+    else:
+        r.add_circles(np.radians(0.2), np.radians(-0.6), np.radians(0.4))
+    return r
+
+
 def export_failures(r, tmp):
     out = []
     D = r.maxdepth
@@ -111,10 +121,10 @@ def crosscheck_exports(p):
     tmp = tempfile.mkdtemp(prefix="c12_")
     failures, seen, evals = [], set(), 0
     try:
-        cases = [(1, 0), (2, 1), (12, 2)] + [(rnd.randint(1, 6), 100 + i) for i in range(n)]
+        cases = [(1, 0), (2, 1), (12, 2), (7, -1), (8, -2)] + [(rnd.randint(1, 6), 100 + i) for i in range(n)]
         for D, seed in cases:
             evals += 1
-            r = build_region(random.Random(seed), D)
+            r = special_region(D, seed) if seed < 0 else build_region(random.Random(seed), D)
             for lab, what in export_failures(r, tmp):
                 if lab not in seen:
                     seen.add(lab)
@@ -128,12 +138,12 @@ def crosscheck_exports(p):
 
 
 def replay_exports(p):
-    cases = p.get("cases") or [(1, 0), (2, 1), (3, 5), (4, 7), (5, 9)] + [(random.Random(i).randint(1, 5), 200 + i) for i in range(60)]
+    cases = p.get("cases") or [(1, 0), (2, 1), (3, 5), (4, 7), (5, 9), (7, -1), (8, -2)] + [(random.Random(i).randint(1, 5), 200 + i) for i in range(60)]
     tmp = tempfile.mkdtemp(prefix="c12_")
     bad = []
     try:
         for D, seed in cases:
-            fl = export_failures(build_region(random.Random(seed), D), tmp)
+            fl = export_failures(special_region(D, seed) if seed < 0 else build_region(random.Random(seed), D), tmp)
             if fl:
                 bad.append({"depth": D, "seed": seed, "what": fl[:3]})
                 if len(bad) >= 3:
